@@ -55,6 +55,8 @@ def configs(tier, seed):
         _cfg((5, 4, 1), (1, 1, 1), 2, "average", "uint16"), _cfg((1, 5, 5), (1, 1, 1), 2, "majority", "uint16"),
         _cfg((5, 5, 3), (1, 4, 1), 2, "average", "uint8"), _cfg((4, 5, 5), (1, 2, 2), 4, "average", "uint8", outside=0),
         _cfg((3, 2, 3), (2, 4, 1), 1, "stride", "uint64", enc="compressed_segmentation", layout="flat"), _cfg((5, 3, 5), (2, 4, 1), 2, "stride", "uint32", layout="flat"),
+        # outside value 0 (a falsy option value) with odd sizes on several levels
+        _cfg((5, 3, 3), (1, 1, 1), 2, "average", "uint8", outside=0), _cfg((3, 7, 2), (1, 1, 2), 2, "average", "uint16", 2, outside=0, layout="flat"),
         # multi-channel segmentations stored with compressed_segmentation (channels may share label sets)
         _cfg((5, 1, 1), (1, 1, 1), 2, "stride", "uint32", 2, enc="compressed_segmentation", cost=8),
         _cfg((1, 5, 1), (1, 1, 1), 2, "majority", "uint64", 2, enc="compressed_segmentation", cost=8),
